@@ -27,25 +27,31 @@ TECHNIQUE = (
 )
 RULE = (
     "every (family, named revision, memory type) triple of features.bootable_image in the database under test "
-    "(quick: one triple per distinct layout and draw, rotating with the seed; thorough: every triple) x ~15 draws: "
-    "random subset of the optional segments, initial offset cycling over 0 and every segment start (number or segment "
-    "name, sometimes a value between two starts), opaque block sizes from {1, mid, format size -1/0, room to the next "
-    "offset -1/0}, application payload sizes from small/mid/large classes, every plain MBI variant the family has / "
-    "plain HAB / unsigned AHAB (target memory derived from the memory type) / SB2.1- and SB3.1-shaped files; plus a "
-    "directed sweep (all segments, every segment start) per layout and CLI merge/parse samples. A case signature is "
-    "(layout, initial-offset class, supplied segment set, size classes, container variant); non-trivial = the image was "
-    "built, judged by the placement model and a parse was attempted."
+    "(quick: one triple per distinct layout and draw, rotating with the seed; thorough: every triple) x 15 draws: "
+    "random subset of the optional segments, initial offset cycling over 0 and every segment start (as a number, as a "
+    "value between two starts, or through the API as a segment name), opaque block sizes from {1, mid, format size "
+    "-1/0/+1, room to the next offset -1/0}, application payload sizes from small/mid/large classes, every plain / CRC "
+    "MBI variant the family has / plain HAB / unsigned one-image AHAB (target memory derived from the memory type) / "
+    "SB2.1- and SB3.1-shaped files, FCB from FCB(family, memory).export(), XMCD of every (memory, block type) of the "
+    "family, BEE region headers; plus per layout (thorough: per triple) a directed sweep with all segments and every "
+    "segment start, CLI merge/parse/merge samples, directed witnesses of the known finding and directed cases for every "
+    "input feature that was seen to matter. A case signature is (case kind, layout, initial-offset class, request form, "
+    "supplied segments with their size classes / container variant); non-trivial = the image was built, agreed with the "
+    "placement model, and the parse round trip was judged."
 )
 ASSUMPTIONS = [
     "a layout without image_pattern is filled with 0x00 (the documented default); only single-byte fill patterns are modelled",
-    "floating segments (negative database offset) start at the end of their layout predecessor rounded up to 1 KiB (AHAB container sets)",
+    "floating segments (negative database offset) start at the end of their layout predecessor rounded up to 1 KiB (AHAB container sets) and are only supplied together with that predecessor",
     "a header block supplied shorter than its fixed format size comes back padded to that size with the fill byte (the field has no length of its own)",
-    "opaque blocks never consist of fill bytes only (such a block is indistinguishable from an absent one) and payload bytes are 7-bit (no container-tag look-alikes)",
+    "opaque blocks never consist of fill bytes only (such a block is indistinguishable from an absent one); payload bytes are 7-bit (no container-tag look-alikes)",
+    "random application payloads carry an invalid MBI image type at every offset where an earlier-start layout would look for an MBI header; the chance behaviour of the MBI parser on such bytes is exercised by two directed witnesses instead",
     "an initial offset between two segment starts means the next start (documented in the init_offset setter and pinned by the repository tests)",
     "a build in which all supplied segments lie before the initial offset (empty image) is not generated",
     "parse is called with the family, revision and memory type the image was built for (no auto-detection across memory types)",
     "block sizes beyond the room to the next segment's offset are outside the property's quantifier and are not generated",
     "a merge may refuse (documented error) only an opaque block longer than its fixed format size; refusing well-formed fitting segments is judged",
+    "whether the MBI / HAB / AHAB classes read their own bytes back is the business of C01/C06/C07: where the container class alone rejects its bytes the parse clauses are not judged, where it is not idempotent the re-export clause is not judged (both counted)",
+    "a configuration written by the CLI parse that the CLI merge refuses with a documented error is counted and reported, not judged (the recovered segment files are compared)",
 ]
 REQUIRED_COUNTERS = [
     "images_built",
@@ -58,8 +64,8 @@ REQUIRED_COUNTERS = [
     "cli_parse",
     "known_witness",
 ]
-CASE_TIMEOUT_S = 180
-WATCHDOG_S = {"quick": 900, "thorough": 5400}
+CASE_TIMEOUT_S = 600
+WATCHDOG_S = {"quick": 3000, "thorough": 14400}
 
 KNOWN_INIT = "bimg-init-offset-at-non-init-segment"
 FEATURE = "bootable_image"
@@ -98,6 +104,18 @@ DIRECTED = [
     {"what": "initial offset in a layout with a floating segment", "family": "mimx8ulp", "memory": "flexspi_nor", "init": 0x400},
     {"what": "initial offset in a layout with a floating segment", "family": "mimx9352", "memory": "sd", "init": 0x8000},
     {"what": "FCB for a family without FCB description", "family": "mimx9352", "memory": "flexspi_nor"},
+    {"what": "absent FCB in a layout filled with 0xFF", "family": "lpc5536", "memory": "flexspi_nor",
+     "directives": {"omit": ["fcb"]}},
+    {"what": "absent FCB in a layout filled with 0xFF", "family": "mcxn947", "memory": "flexspi_nor",
+     "directives": {"omit": ["fcb"]}},
+    {"what": "absent header blocks in a layout filled with 0x00", "family": "mimxrt1176", "memory": "flexspi_nor",
+     "directives": {"omit": ["keyblob", "fcb", "keystore"]}},
+]
+
+# directed CLI round trips (all segments supplied)
+DIRECTED_CLI = [
+    {"family": "mimxrt798s", "memory": "xspi_nor"},  # the only layout whose FCB segment kind is 'fcb_xspi'
+    {"family": "mimxrt1189", "memory": "flexspi_nor"},
 ]
 
 _CACHE: dict = {}
@@ -159,6 +177,8 @@ def cases(tier, seed):
         yield {"kind": "witness_mbi", **w}
     for w in DIRECTED:
         yield {"kind": "directed", **w}
+    for w in DIRECTED_CLI:
+        yield {"kind": "cli", "full": True, "k": 0, **w}
     if tier == "thorough":
         # every triple: the directed sweep (all segments, every segment start as initial offset), then the draws
         for f, r, m, _ in tr:
@@ -1024,7 +1044,9 @@ def _run_cli(ctx, case, raw, wd):
     rng = ctx.rng
     # the erased image-version word (nothing configured) has no configuration value that regenerates it, so the
     # parse -> merge comparison below is only meaningful with a configured version
-    plan = _draw_plan(case, raw, rng, wd, version_always=True)
+    plan = _draw_plan(case, raw, rng, wd, version_always=True, full=bool(case.get("full")),
+                      init_req=0 if case.get("full") else None,
+                      directives={"xmcd": ["flexspi_ram", "simplified"]} if case.get("full") and case["family"] == "mimxrt1189" else None)
     if plan["init_form"] == "name":  # the configuration file takes numbers only
         plan["init_form"] = "int"
         if plan["init_req"]:
@@ -1116,6 +1138,15 @@ def _run_cli(ctx, case, raw, wd):
             good = False
     if not good:
         return
+    # the configuration written by parse must refer to every recovered segment
+    for name in _in_image(raw, plan):
+        if name in ("image_version", "image_version_ap"):
+            continue
+        if not pcfg.get(CFG_KEY.get(name, name)):
+            ctx.violation("bimg-cli-parsed-config-omits-segment",
+                          _witness(case, plan, {"where": "cli parse", "segment": name, "config_key": CFG_KEY.get(name, name),
+                                                "parsed_config_keys": sorted(pcfg)}))
+            return
     if any(st == "not-idempotent" for st in plan["status"].values()):
         ctx.count("reexport_skipped_container_class_not_idempotent")
         ctx.ok(sig, sample={"family": case["family"], "memory": case["memory"], "init_offset": init, "cli": True, "reexport": "skipped"})
